@@ -461,12 +461,17 @@ class Sem:
         from .expr import DEFAULT
         i = self.w.ident(e)
         if i.op != "phi":
-            return self.label(i)
+            l = self.label(i)
+            if l is None and i.op == "call" and self.w.callee_body(i) is not None:
+                l = self.label(E("proj", (i,), "ok"))
+            return l
         labs = []
         for a in i.args:
             if a == DEFAULT:
                 continue
             l = self.label(a)
+            if l is None and a.op == "call" and self.w.callee_body(a) is not None:
+                l = self.label(E("proj", (a,), "ok"))
             if l is not None and l[0] == "const" and l[1] == "lib" and l[2].endswith("::zero"):
                 continue
             if l not in labs:
